@@ -1468,6 +1468,32 @@ fn agg_param_entry(pf: &Profile) -> Entry {
     // the interesting ones first as mutation bases: order honest so that small ones come first
     e.honest.sort_by_key(|h| h.len());
     // header fields at extremes x bodies of length 0..=40
+    for level in [1u64, 2, 5, 8, 9, 14] {
+        // several prefixes with stray padding bits in exactly one of them (first / middle / last): the
+        // padding of EVERY prefix must be checked
+        let nb = (level as usize + 1).div_ceil(8);
+        if nb <= 2 && (level + 1) % 8 != 0 {
+            let pad_bit = 1u8; // lowest bit of the last byte is padding whenever level+1 is not a multiple of 8
+            for count in 2..=3usize {
+                for dirty in 0..count {
+                    // strictly increasing prefixes: first byte 0x00, 0x40, 0x80 (their leading bits differ)
+                    let mut body = vec![];
+                    for k in 0..count {
+                        let mut pfx = vec![0u8; nb];
+                        // keep only bits that exist at this level in the first byte
+                        let bits_first = (level as usize + 1).min(8);
+                        let lead = [0x00u8, 0x40, 0x80][k] & (0xFFu8 << (8 - bits_first));
+                        pfx[0] = lead;
+                        if k == dirty {
+                            pfx[nb - 1] |= pad_bit;
+                        }
+                        body.extend(pfx);
+                    }
+                    e.extras.push((format!("dirty_padding(level={level:#x},count={count},prefix={dirty})"), [be(2, level), be(4, count as u64), body].concat()));
+                }
+            }
+        }
+    }
     for level in [0u64, 7, 8, 0xFFFE, 0xFFFF] {
         for count in [0u64, 1, 2, 1 << 16, 0xFFFF_FFFF] {
             for body in bodies() {
